@@ -358,6 +358,12 @@ def gen_cases(ctx):
             fsb = [rng.choice(([0, 503], [1, 5], [2, 20], [4, 0], [0, 403], [0, 400])) for _ in range(nb)]
             cases.append(dict(kind='chunk', cfg=[10, 1, rng.choice((1, 2)), rng.choice((1, 2)), list(GLITCHES)],
                               payload=0, fs=pre + [[0, 404]], fsb=fsb, bucket=b, verified=v))
+    # (c') listing requests with adapter-level retries followed by body faults (the listing is not streamed: the tie)
+    for fsb in ([[4, 0], [1, 5]], [[0, 503], [1, 5], [0, 503]], [[4, 2], [2, 20], [4, 0]], [[0, 500], [2, 3]],
+                [[1, 5], [4, 0]], [[0, 503], [0, 503], [1, 9]]):
+        for read, status in ((1, 1), (0, 1), (1, 0), (2, 1)):
+            cases.append(dict(kind='chunk', cfg=[10, 1, read, status, list(GLITCHES)], payload=2, fs=[[0, 404]],
+                              fsb=fsb, bucket=rng.choice((0, 1, 2)), verified=False))
     # (d) the default configuration (ints): at most one transient fault (the first back-off is zero)
     for cfgd in ([2, 2], [0, 1], [1, 0]):
         for s in ([0, 503], [1, 40], [4, 0], [0, 404], [0, 401], [2, 9]):
